@@ -298,12 +298,47 @@ def wide_long_cases(draw, tier):
 E1 = Enum(1, 3, {'quick': 5, 'thorough': 7})
 E2 = Enum(2, 2, {'quick': 3, 'thorough': 4})
 
+# ----------------------------------------------------------------------------- many atoms (atom-count dependent code paths)
+MANY_ATOMS = [255, 256, 257, 300, 511, 512, 513, 700]
+
+
+def many_history(case):
+    """deterministic (outer, inner) history of many atoms over 3 sites: every atom has its own dwell time and phase"""
+    N, T, k = case['atoms'], case['frames'], case['k']
+    t_ = np.arange(T).reshape(T, 1)
+    a_ = np.arange(N).reshape(1, N)
+    dwell = 1 + (a_ + k) % 3
+    states = (((a_ * 2654435761 + (t_ // dwell) * 40503 + k * 97) >> 3) % 4 - 1).astype(int)
+    inner = np.where((a_ + t_ + k) % 3 != 0, states, -1).astype(int)
+    return states, inner
+
+
+def many_size(tier):
+    return len(MANY_ATOMS) * (2 if tier == 'quick' else 6)
+
+
+def many_case(tier, idx):
+    return {'atoms': MANY_ATOMS[idx % len(MANY_ATOMS)], 'frames': 3 + idx % 5, 'k': idx // len(MANY_ATOMS)}
+
+
+def run_many(case):
+    states, inner = many_history(case)
+    info = run({'states': states.tolist(), 'inner': inner.tolist()})
+    N = case['atoms']
+    info['labels'] = list(info.get('labels', [])) + [f'atoms>{256 * (N // 256)}' if N % 256 else 'atoms-multiple-of-256']
+    info['count'] = N
+    return info
+
+
 SUBS = [
     Sub(name='enum-1atom-3sites', kind='enum', run=run, size=E1.size, case_at=E1.case_at, exhaustive=True,
         rule='complete enumeration of all one-atom histories over <=3 sites (7 symbols/frame), length 2..5 (quick) / 2..7 (thorough)',
         shards={'quick': 8, 'thorough': 16}),
     Sub(name='enum-2atoms-2sites', kind='enum', run=run, size=E2.size, case_at=E2.case_at, exhaustive=True,
         rule='complete enumeration of all two-atom histories over 2 sites (25 joint symbols/frame), length 2..3 (quick) / 2..4 (thorough)',
+        shards={'quick': 8, 'thorough': 16}),
+    Sub(name='enum-many-atoms', kind='enum', run=run_many, size=many_size, case_at=many_case, exhaustive=True,
+        rule='small family, complete: deterministic (outer, inner) histories of 255 - 700 atoms (around multiples of 256) x 3-7 frames over 3 sites, every atom with its own dwell time and phase; all event-table and view clauses (each atom is one evaluation)',
         shards={'quick': 8, 'thorough': 16}),
     Sub(name='random-long', kind='hyp', run=run, strategy=lambda tier: histories(tier=tier),
         rule='1-6 atoms x 2-200 frames x <=8 sites, dwell-time parametrised; atoms that never move / never enter an inner site / only change inner state',
